@@ -1,0 +1,81 @@
+//! Verification hooks (compiled only with `--cfg smartcore_verif`; off by default).
+//!
+//! * [`bbd_clustering`] exposes the crate-private tree-accelerated k-means
+//!   assignment step so that it can be driven with arbitrary centroids.
+//! * [`set_kmeans_observer`] installs a thread-local observer that is called after
+//!   every tree-accelerated assignment step performed inside `KMeans::fit`.
+
+use std::cell::RefCell;
+
+use crate::algorithm::neighbour::bbd_tree::BBDTree;
+use crate::linalg::Matrix;
+use crate::math::num::RealNumber;
+
+/// One assignment step of `KMeans::fit`, as seen right after `BBDTree::clustering` returned.
+/// All numbers are converted to `f64`.
+#[derive(Debug, Clone)]
+pub struct KMeansStep {
+    /// centroids the assignment was computed against
+    pub centroids: Vec<Vec<f64>>,
+    /// per-cluster coordinate sums returned by the assignment step
+    pub sums: Vec<Vec<f64>>,
+    /// per-cluster counts returned by the assignment step
+    pub size: Vec<usize>,
+    /// row -> cluster
+    pub y: Vec<usize>,
+    /// total distortion returned by the assignment step
+    pub distortion: f64,
+}
+
+type Observer = Box<dyn FnMut(KMeansStep)>;
+
+thread_local! {
+    static KMEANS_OBS: RefCell<Option<Observer>> = RefCell::new(None);
+}
+
+/// Install (or, with `None`, remove) this thread's k-means step observer.
+pub fn set_kmeans_observer(obs: Option<Observer>) {
+    KMEANS_OBS.with(|o| *o.borrow_mut() = obs);
+}
+
+fn to_f64_rows<T: RealNumber>(v: &[Vec<T>]) -> Vec<Vec<f64>> {
+    v.iter()
+        .map(|r| r.iter().map(|x| x.to_f64().unwrap_or(f64::NAN)).collect())
+        .collect()
+}
+
+pub(crate) fn kmeans_step<T: RealNumber>(
+    centroids: &[Vec<T>],
+    sums: &[Vec<T>],
+    size: &[usize],
+    y: &[usize],
+    distortion: T,
+) {
+    KMEANS_OBS.with(|o| {
+        if let Some(f) = o.borrow_mut().as_mut() {
+            f(KMeansStep {
+                centroids: to_f64_rows(centroids),
+                sums: to_f64_rows(sums),
+                size: size.to_vec(),
+                y: y.to_vec(),
+                distortion: distortion.to_f64().unwrap_or(f64::NAN),
+            });
+        }
+    });
+}
+
+/// Build the BBD tree over `data` and run one tree-accelerated assignment step against `centroids`.
+/// Returns `(sums, counts, membership, distortion)`.
+pub fn bbd_clustering<T: RealNumber, M: Matrix<T>>(
+    data: &M,
+    centroids: &[Vec<T>],
+) -> (Vec<Vec<T>>, Vec<usize>, Vec<usize>, T) {
+    let (n, d) = data.shape();
+    let k = centroids.len();
+    let tree = BBDTree::new(data);
+    let mut sums = vec![vec![T::zero(); d]; k];
+    let mut counts = vec![0usize; k];
+    let mut membership = vec![0usize; n];
+    let dist = tree.clustering(centroids, &mut sums, &mut counts, &mut membership);
+    (sums, counts, membership, dist)
+}
